@@ -585,11 +585,9 @@ func BufferWithCount[T any](size int) func(Observable[T]) Observable[[]T] {
 				),
 			)
 
-			return func() {
-				sub.Unsubscribe()
-
-				buffer = []T{}
-			}
+			// The buffer is released together with this closure. Resetting it here would be an
+			// unsynchronized write racing with a producer still inside the Next callback.
+			return sub.Unsubscribe
 		})
 	}
 }
